@@ -99,6 +99,7 @@ type Opaque struct {
 	tag string
 	nil bool
 	nilT *Term // symbolic nil-ness (error results of external calls)
+	id   *Term // symbolic identity (elements of symbolic arrays of pointers)
 }
 
 // MapV is a map with concrete keys (used for package-level tables) or a
@@ -129,6 +130,7 @@ type State struct {
 	log     []Event
 	version int // bumped on any externally visible effect
 	wlog    []int // ids of cells written (stores), in order
+	schemas []*schema // quantified facts valid on this path (loop invariants, callee postconditions)
 	written map[*Cell]bool
 }
 
@@ -144,6 +146,7 @@ func (s *State) fork() *State {
 		apps:    s.apps[:len(s.apps):len(s.apps)],
 		log:     s.log[:len(s.log):len(s.log)],
 		wlog:    s.wlog[:len(s.wlog):len(s.wlog)],
+		schemas: s.schemas[:len(s.schemas):len(s.schemas)],
 		version: s.version,
 	}
 	for k, v := range s.store {
@@ -410,8 +413,13 @@ func iteValue(c *Term, a, b Value) (Value, bool) {
 		}
 		return nil, false
 	case *Opaque:
-		if y, ok := b.(*Opaque); ok && x.nil == y.nil {
-			return x, true
+		if y, ok := b.(*Opaque); ok {
+			if x.id != nil && y.id != nil {
+				return &Opaque{typ: x.typ, tag: x.tag, id: mkIte(c, x.id, y.id)}, true
+			}
+			if x.id == nil && y.id == nil && x.nil == y.nil {
+				return x, true
+			}
 		}
 		return nil, false
 	case *SliceV:
